@@ -32,6 +32,9 @@ try:
             print("   " + l)
 finally:
     subprocess.run(["git", "-C", "/repo", "checkout", "--", "."], check=True)
+    # the generated Lean modules follow /repo: put them back too, so that nothing derived from the seeded tree is left
+    subprocess.run([sys.executable, "-c", "import sys; sys.path.insert(0, %r); from vlib import core; core.build_harness(); core.regen()" % HERE],
+                   cwd=HERE, capture_output=True)
 json.dump(results, open(os.path.join(d, "last_run.json"), "w"), indent=1)
 caught = any(v["exit"] == 1 and any("VIOLATION" in l for l in v["lines"]) for v in results.values())
 print("CAUGHT" if caught else "MISSED")
